@@ -69,6 +69,7 @@ class Effects:
         self._local = {}
         self._classify_memo = {}
         self._ret_fresh = {}
+        self.self_class = None   # analyse inherited methods as if `self` were an instance of this class
         self.unresolved = 0
         self.resolved = 0
 
@@ -331,7 +332,7 @@ class Effects:
             vis = call.args[0]
             vcls = None
             if isinstance(vis, ast.Name) and vis.id == "self" and fi.cls is not None:
-                vcls = fi.cls
+                vcls = self._self_cls(fi) or fi.cls
             elif isinstance(vis, ast.Name):
                 vcls = self._local_class(fi, vis, call)
             if vcls is not None:
@@ -350,7 +351,7 @@ class Effects:
             recv = call.func.value
             vcls = None
             if isinstance(recv, ast.Name) and recv.id == "self" and fi.cls is not None:
-                vcls = fi.cls
+                vcls = self._self_cls(fi) or fi.cls
             elif isinstance(recv, ast.Name):
                 vcls = self._local_class(fi, recv, call)
             if vcls is not None and vcls.lookup("visit") is not None and \
@@ -361,6 +362,11 @@ class Effects:
                             if mn.startswith("visit_") and c.lookup(mn) is m and m not in out:
                                 out.append(m)
                 return self._with_decorators(out), "visitor"
+        if isinstance(call.func, ast.Attribute) and isinstance(call.func.value, ast.Name) and \
+                call.func.value.id == "self" and self._self_cls(fi) is not None and fi.outer is None:
+            tg, how = repo.dispatch(self._self_cls(fi), call.func.attr)
+            if tg:
+                return self._with_decorators(tg), how
         local_types = None
         if isinstance(call.func, ast.Attribute) and isinstance(call.func.value, ast.Name) and \
                 call.func.value.id not in ("self", "cls"):
@@ -370,6 +376,12 @@ class Effects:
         tg, how = repo.resolve_call(call, fi, local_types)
         # function-valued parameters / locals bound to lambdas are not followed here
         return self._with_decorators(tg), how
+
+    def _self_cls(self, fi):
+        sc = self.self_class
+        if sc is not None and fi.cls is not None and any(c is fi.cls for c in sc.mro()):
+            return sc
+        return None
 
     def _with_decorators(self, fns):
         out = []
